@@ -3,7 +3,7 @@
 //! One run = one supervisor session: one worker process is spawned and fed a tape-chosen number of
 //! deliveries `(entry point, bytes)`; every decision (entry point, seed, mutations, their parameters)
 //! is drawn from the tape. Observables: panic payload, process death (signal / exit status), hang
-//! (20 s watchdog, confirmed twice in isolation), canary drift.
+//! (60 s watchdog, confirmed twice in isolation), canary drift.
 
 mod entries;
 mod entries_http;
@@ -111,6 +111,23 @@ fn gen_delivery(t: &mut Tape, c: &Corpus) -> Delivery {
     if bytes.len() > mutate::MAX_INPUT {
         bytes.truncate(mutate::MAX_INPUT);
         kinds.push("cap_truncate");
+    }
+    // glob matching costs pattern x value steps: both at tens of kilobytes take tens of seconds of
+    // legitimate work, which a watchdog cannot tell from a hang; bound the product instead
+    if traits & mutate::T_GLOB != 0 {
+        if let Some(nl) = bytes.iter().position(|&c| c == b'\n') {
+            let (plen, vlen) = (nl.max(1), bytes.len() - nl - 1);
+            const WORK: usize = 20_000_000;
+            if plen * vlen > WORK {
+                let keep = WORK / plen;
+                let mut cut = nl + 1 + keep;
+                while cut < bytes.len() && (bytes[cut] & 0xC0) == 0x80 {
+                    cut += 1;
+                }
+                bytes.truncate(cut);
+                kinds.push("cap_glob_work");
+            }
+        }
     }
     Delivery { entry, seed, kinds, bytes }
 }
@@ -232,7 +249,7 @@ impl Engine for CrashEngine {
             stub_components: vec![
                 "supervisor (delivery generation from the tape, violation bookkeeping)".into(),
                 "pipes and frame protocol between supervisor and worker process".into(),
-                "watchdog (20 s per reply; hang candidates re-run twice alone)".into(),
+                "watchdog (60 s per reply; hang candidates re-run twice alone)".into(),
                 "mutators (byte-level, JSON-structure, delimiter, HTML nesting, push-rule anchors)".into(),
                 "HTTP router in front of try_from_http_request (path-template matcher, percent-decoding)".into(),
                 "state snapshots / auth chains handed to ruma-state-res (event ids given explicitly)".into(),
@@ -242,7 +259,7 @@ impl Engine for CrashEngine {
                 "worker thread stack = 8 MiB (platform default of a main thread)".into(),
                 "nesting bounds: 1000 for HTML, 128 for JSON (serde_json's own limit); deeper JSON is generated but must be rejected, not crash".into(),
                 "inputs <= 70 000 bytes".into(),
-                "hang = no reply within 20 s wall clock, confirmed twice alone in a fresh worker".into(),
+                "hang = no reply within 60 s wall clock, confirmed twice alone in a fresh worker; glob inputs are capped at 2e7 pattern x value steps (legitimate matching work beyond that takes tens of seconds)".into(),
                 "state-res inputs: the auth_events/prev_events graph among delivered events is a DAG (event ids are hashes from room v3 on); cyclic inputs are rejected by the harness; at most 64 events".into(),
                 "features: ruma-signatures/ring-compat, ruma-events/html + unstable-pdu, ruma-html/matrix enabled; no other unstable feature".into(),
                 "simfed-generated seeds are not used; seeds = embedded corpus + JSON fixtures under /repo/crates/*/tests".into(),
@@ -376,7 +393,7 @@ impl Engine for CrashEngine {
                         }
                     }
                     if confirmed == 2 {
-                        Verdict::Bad("hang", "no reply within 20 s, three times (once in the session, twice alone in a fresh worker)".into(), json!({"watchdog_s": 20}), true)
+                        Verdict::Bad("hang", "no reply within 60 s, three times (once in the session, twice alone in a fresh worker)".into(), json!({"watchdog_s": 60}), true)
                     } else {
                         out.bump("hang.unconfirmed");
                         match other {
